@@ -116,3 +116,14 @@ Example prompt_wait_after_rejected_start_accepted :
     h_ops := [(HStart 0, RRejected); (HWait 0, RStatus NotStarted); (HStart 0, RRejected)];
     h_execs := [0%nat] |}) = [0%nat].
 Proof. vm_compute. reflexivity. Qed.
+
+(* a Start that returned nil but was never followed by an execution (the run was dropped) *)
+Example accepted_start_without_execution_is_violation :
+  check_case (CHist {| h_max := hh; h_now := t0; h_pre := [];
+    h_ops := [(HSubmit true true, ROk); (HStart 0, ROk); (HPlan 0, RStatus NotStarted)]; h_execs := [0%nat] |})
+  = [1%nat; 7%nat; 1%nat]
+  /\ check_case (CBurst {| b_max := hh; b_now := t0;
+        b_pl := Some {| pl_status := NotStarted; pl_submit := Some (t0 - 1000); pl_valid := true |};
+        b_starts := [ROk; RRejected]; b_others := []; b_execs := 0; b_final := RCanceled |})
+     = [1%nat; 7%nat; 0%nat].
+Proof. split; vm_compute; reflexivity. Qed.
